@@ -64,6 +64,11 @@ def scenarios(tier: str) -> list[tuple]:
                         continue  # the small buffer only matters to readers
                     for split in split_specs(tier, (a, b)):
                         out.append((lock, buf, warm, (a, b), split, 99))
+                    if buf == 8192 and warm:
+                        # the journal was idle for longer than the lock's grace period before the
+                        # workers arrive (time since the last append is not the age of a lock)
+                        for split in split_specs("quick", (a, b))[:2]:
+                            out.append((lock, buf, warm, (a, b), split, 99, 100.0))
             if tier == "thorough" or (buf == 8192 and warm):
                 # 2 x 2 calls and 3 x 1: preemption bounded
                 b2 = 1 if tier == "quick" else 3
@@ -120,7 +125,8 @@ def payload(p: int, k: int, nrec: int) -> bytes:
 
 class Run:
     def __init__(self, task: tuple) -> None:
-        self.lock, self.buf, self.warm, self.names, self.split, self.bound = task
+        self.lock, self.buf, self.warm, self.names, self.split, self.bound = task[:6]
+        self.idle = task[6] if len(task) > 6 else 0.0  # seconds the journal lay idle before the run
 
     def execute(self, ch: Chooser) -> dict:
         fs = simfs.SimFS(bufsize=self.buf)
@@ -141,6 +147,7 @@ class Run:
             fs.write_ordinal = {}
             fs.proc_syscalls = {}
             fs.log = []
+            fs.clock += self.idle  # the file's mtime now lies `idle` seconds in the past
             sched = simfs.ProcSched(ch, fs)
             holders: set = set()
             ghost = {"max_holders": 0, "double": None}
